@@ -135,7 +135,10 @@ def full_sig(sig, meth):
 
 # ----------------------------------------------------------- streams beyond "one fresh function, small ints"
 # value codes understood by c07_impl.py: -1 None, -2 False, -3 '', -4 (), an int is itself
-SPECIAL_VALUES = [-1, 0, -2, -3, 7, -4]
+# -10 ==everything, -11 ==nothing (NaN-like), -12 comparisons raise, -13 comparisons return an object without a
+# truth value (array-like), -14 inspect.Parameter.empty (as an argument only); compared by identity
+SPECIAL_VALUES = [-1, 0, -2, -3, 7, -4, -10, -11, -12, -13]
+ARG_VALUES = SPECIAL_VALUES + [-14]
 
 
 def special_defaults(sig, rot):
@@ -165,9 +168,9 @@ def value_stream(rng, sigs):
                     if variant == 0:
                         vals = [-1] * n
                     elif variant == 1:
-                        vals = [SPECIAL_VALUES[(ci + j) % len(SPECIAL_VALUES)] for j in range(n)]
+                        vals = [ARG_VALUES[(ci + j) % len(ARG_VALUES)] for j in range(n)]
                     else:
-                        vals = [rng.choice(SPECIAL_VALUES) for _ in range(n)]
+                        vals = [rng.choice(ARG_VALUES) for _ in range(n)]
                     calls.append([vals[:len(pos)], [[k, v] for (k, _), v in zip(kw, vals[len(pos):])], None])
             groups.append({"sig": sig, "meth": meth, "calls": calls, "stream": "values"})
     return groups
@@ -282,7 +285,8 @@ def oracle(sig, meth, pos, kw, ign, r):
         return None
     txt = "filter_args gives %s, Python binds %s" % (json.dumps(r["fa"].get("ok", r["fa"])), json.dumps(exp))
     if any(v < 0 for v in list(pos) + [v for _, v in kw]) or any((p[2] or 0) < 0 for p in sig):
-        txt += "  (value codes: -1 None, -2 False, -3 '', -4 ())"
+        txt += ("  (value codes: -1 None, -2 False, -3 '', -4 (), -10 object equal to everything, -11 object equal "
+                "to nothing, -12 comparisons raise, -13 comparisons have no truth value, -14 Parameter.empty)")
     return txt
 
 
@@ -541,6 +545,139 @@ def shard_worker(job):
     return S
 
 
+# ------------------------------------------------------- get_func_name / func_id (model M2b, Model/FuncName.v)
+NAME_MODS = ["pkg.mod", "pkg", "", None, "__main__", "a..b", ".a", "m-x", "__main__.x"]
+NAME_NAMES = ["f", "<lambda>", "a.b", "x-y", "/abs", "", "wrapper", None]
+NAME_FILES = ["/d/e/f.py", "/a-b/c.py", "/a/b-c.py", "/t/<ipython-input-3-abc>", "/t/<ipython-input-12-abc-x>",
+              "/t/<ipython-input", "/t/ipykernel_123456/789.py", "/ipykernel_1/2.py", "/x.py.py", "/my.proj/s.py",
+              "/nowhere/z.py", "/p/.py"]
+NAME_REQ = """From Coq Require Import ZArith List.
+Require Import JV.Model.FuncName.
+Import ListNotations. Open Scope Z_scope."""
+NAME_WITNESSES = {
+    "func-id-module-boundary": [{"module": "pkg.mod", "name": "f", "qualname": "f", "file": "/d/e/f.py"},
+                                {"module": "pkg", "name": "f", "qualname": "mod.f", "file": "/d/e/f.py"}],
+    "func-id-closure-collision": [{"module": "m", "name": "g", "qualname": "make.<locals>.g", "file": "/d/e/f.py"},
+                                  {"module": "m", "name": "g", "qualname": "make.<locals>.g", "file": "/d/e/g.py"}],
+    "func-id-main-path-mangling": [{"module": "__main__", "name": "f", "qualname": "f", "file": "/a-b/c.py"},
+                                   {"module": "__main__", "name": "f", "qualname": "f", "file": "/a/b-c.py"}],
+}
+NAME_WHAT = {
+    "func-id-module-boundary": "function f of module pkg.mod and method f of class mod in module pkg get the same "
+                               "func_id pkg/mod/f (theorem C07_func_id_refuted_module_boundary)",
+    "func-id-closure-collision": "get_func_name reads only __module__/__name__/__qualname__: two closures of one "
+                                 "factory (two functions behind one decorator without functools.wraps, two lambdas, two "
+                                 "partial objects) share the func_id and the source text, so Memory serves one's cached "
+                                 "value for the other (theorem C07_func_id_refuted_closure)",
+    "func-id-main-path-mangling": "scripts /a-b/c.py and /a/b-c.py run as __main__ get the same func_id: os.sep is "
+                                  "mangled to '-' (theorem C07_func_id_refuted_main_path)",
+}
+
+
+def name_cases(rng, n_random):
+    cases = []
+
+    def quals(n):
+        return [None] if n is None else [n, "K." + n, "deco.<locals>." + n, "mod." + n, n + ".g", "." + n]
+    for m in NAME_MODS:
+        for n in NAME_NAMES:
+            for q in quals(n):
+                for fl in (NAME_FILES if m == "__main__" else ["/d/e/f.py"]):
+                    cases.append({"module": m, "name": n, "qualname": q, "file": fl})
+    alpha = "ab./-<_"
+
+    def rs(k):
+        return "".join(rng.choice(alpha) for _ in range(rng.randint(0, k)))
+    for _ in range(n_random):
+        n = rng.choice([rs(4), "f", "g"])
+        q = rng.choice([n, rs(3) + "." + n, rs(5), "a.b." + n])
+        m = rng.choice(["__main__", "__main__", rs(6), "p." + rs(3), None])
+        fl = "/" + rng.choice(["t/", "ipykernel_77/", "a-b/", ""]) + rng.choice(
+            ["<ipython-input-%d-%s>" % (rng.randint(0, 99), rs(4).replace("/", "_")), rs(5).replace("/", "_") + ".py",
+             "s.py"])
+        cases.append({"module": m, "name": n, "qualname": q, "file": fl})
+    return cases
+
+
+def coq_str(s_):
+    return "None" if s_ is None else "(Some %s)" % common.coq_list(str(ord(ch)) for ch in s_)
+
+
+def name_model(ctx, cases):
+    import ast as _ast
+    exprs = []
+    for c in cases:
+        sf = c["file"] if c["name"] is not None else None   # getsourcefile fails for an instance
+        exprs.append("let f := mkCallable %s %s %s %s 0 in (get_func_name_model f, func_id_model f)" % (
+            coq_str(c["module"]), coq_str(c["name"]), coq_str(c["qualname"]), coq_str(sf)))
+    out = []
+    for v in ctx.coq_eval_lines(NAME_REQ, "", exprs, name="c07_names"):
+        mods, name, fid = _ast.literal_eval(v.replace(";", ",").replace("%Z", ""))
+        out.append({"modules": ["".join(map(chr, x)) for x in mods], "name": "".join(map(chr, name)),
+                    "func_id": "".join(map(chr, fid))})
+    return out
+
+
+def run_name_impl(cases):
+    rc, out, err = common.run_impl("c07_name_impl.py", input_text="\n".join(json.dumps(c) for c in cases) + "\n")
+    res = [json.loads(l) for l in out.splitlines() if l.strip()]
+    if len(res) != len(cases) or any("harness_error" in r for r in res):
+        raise RuntimeError("c07_name_impl: %s %s" % (err[-1500:], [r for r in res if "harness_error" in r][:1]))
+    return res
+
+
+def name_oracle(c, r):
+    """independent statement for ordinary callables: the identifier is the dotted path with '/' for '.'"""
+    m, n, q = c["module"], c["name"], c["qualname"]
+    if m is None or m == "__main__" or n is None or q is None or q.split(".")[-1] != n:
+        return None
+    segs = (m + "." + q).split(".")
+    if any(sg == "" or "/" in sg for sg in segs):
+        return None
+    exp = "/".join(segs)
+    return None if r.get("func_id") == exp else "func_id is %r, the dotted path %s.%s gives %r" % (r.get("func_id"), m, q, exp)
+
+
+def names_stage(ctx, quick):
+    cases = name_cases(ctx.rng, 300 if quick else 3000)
+    res = run_name_impl(cases)
+    mod = name_model(ctx, cases)
+    bad_model = [{"case": c, "impl": r, "model": m} for c, r, m in zip(cases, res, mod) if r != m]
+    bad_oracle = [(name_oracle(c, r), c, r) for c, r in zip(cases, res) if name_oracle(c, r)]
+    n_ord = sum(1 for c, r in zip(cases, res) if name_oracle(c, {"func_id": None}) is not None)
+    for bad, c, r in bad_oracle[:2]:
+        ctx.violation("get_func_name/func_id: " + bad, {"kind": "oracle-func-id", "name_case": c, "impl": r}, True)
+    if bad_model and not bad_oracle:
+        ctx.violation("model and implementation disagree (%d cases): get_func_name_model/func_id_model vs "
+                      "joblib.func_inspect.get_func_name + memory._build_func_identifier" % len(bad_model),
+                      {"kind": "correspondence", "first_disagreement": bad_model[0]}, found_input=False)
+    # witnesses of the refuted injectivity statements, on the implementation
+    for key, pair in NAME_WITNESSES.items():
+        r1, r2 = run_name_impl(pair)
+        extra = ""
+        still = r1.get("func_id") is not None and r1.get("func_id") == r2.get("func_id")
+        if key == "func-id-closure-collision":
+            e2e = run_name_impl([{"mode": "e2e_closures"}])[0]
+            still = still and e2e["func_ids"][0] == e2e["func_ids"][1]
+            extra = "; end to end: g1 = cache(make(1)), g2 = cache(make(1000)): g1(1) = %s, g2(1) = %s (expected %s)" % (
+                e2e["g1(1)"], e2e["g2(1)"], e2e["expected_g2(1)"])
+        if still:
+            msg = "%s: both get %r%s" % (NAME_WHAT[key], r1["func_id"], extra)
+            # func_id collisions are not violations of C07's statement (argument binding); they are the refuted
+            # injectivity statements that C02/C12 build on: KNOWN-FINDING when listed, otherwise a note
+            if any(k["property"] == ctx.prop and k["kind"] == "known" and k["key"] == key for k in ctx.known):
+                ctx.violation(msg, {"kind": "known-finding", "key": key, "name_pair": pair}, True, finding_key=key)
+            else:
+                ctx.note("refuted func_id injectivity reproduced on the implementation [%s] %s" % (key, msg))
+        else:
+            ctx.violation("witness of the refuted func_id statement (%s) no longer collides on the implementation: "
+                          "the model is stale" % key, {"kind": "stale-witness", "key": key, "impl": [r1, r2]},
+                          found_input=False)
+    return {"name_cases": len(cases), "name_cases_ordinary_judged_by_oracle": n_ord,
+            "name_model_disagreements": len(bad_model), "name_oracle_failures": len(bad_oracle),
+            "name_samples": [dict(c, impl=r) for c, r in list(zip(cases, res))[:2]]}
+
+
 # ------------------------------------------------------------------------------------ witnesses
 # the witnesses of Props/C07.v  (C07_agree_refuted_<...>), as implementation cases
 WITNESSES = {
@@ -592,10 +729,31 @@ def run(ctx):
         "modelled, not verified: inspect.signature/ismethod/isfunction, get_func_name (only used for messages)",
     ]
     import time
+    import gen_c07
     phase = {}
     t0 = time.time()
+    # the loops of filter_args, regenerated from the live source (fail-closed translator)
+    source_tie = "proved"
+    try:
+        _, changed = gen_c07.generate()
+        if changed:
+            ctx.note("Gen/T_filter_args.v changed: the source of filter_args differs from the last run")
+    except (gen_c07.TranslateError, SyntaxError, OSError) as e:
+        source_tie = "translator rejected the source: %s" % e
     proofs_ok = ctx.standard_proof_stage("C07", extra_targets=["Model/FilterArgsEnc.vo"],
                                          search=lambda: search_failing(ctx))
+    if source_tie == "proved":
+        ok_gen, log_gen = ctx.coq_build(["Proofs/FilterArgsGen.vo"])
+        if ok_gen:
+            ok_pa, out_pa = ctx.coq_run("Require Import JV.Proofs.FilterArgsGen.\nPrint Assumptions source_matches_model.\n",
+                                        "assum_c07_gen")
+            if not (ok_pa and "Closed under the global context" in out_pa):
+                source_tie = "Print Assumptions of source_matches_model is not closed"
+        else:
+            source_tie = "Proofs/FilterArgsGen.v no longer proves the regenerated loops equal to the hand model"
+    if source_tie != "proved":
+        # not a violation by itself: the behavioural tie below decides (the tie is broken only if BOTH routes fail)
+        ctx.note("source tie lost (%s); relying on the behavioural correspondence alone" % source_tie)
     phase["proofs"] = round(time.time() - t0, 1)
     t0 = time.time()
     drvdir = os.path.join(ctx.tmp, "drv")
@@ -656,6 +814,9 @@ def run(ctx):
         sums = pool.map(shard_worker, jobs, chunksize=1)
 
     phase["shards"] = round(time.time() - t0, 1)
+    t0 = time.time()
+    name_cov = names_stage(ctx, quick)
+    phase["names"] = round(time.time() - t0, 1)
     t0 = time.time()
     # ---- partial objects (opaque branch)
     opaque_bad = []
@@ -749,7 +910,7 @@ def run(ctx):
             ctx.violation("unlisted known class " + key, {"kind": "oracle", "case": known_ex[key]["case"]}, True)
 
     ctx.finish({
-        "evaluations": tot["cases"] + n_opaque,
+        "evaluations": tot["cases"] + n_opaque + name_cov["name_cases"],
         "distinct_nontrivial": tot["nontrivial"],
         "rule": "exhaustive: every well-formed signature with <= %d parameters (5 kinds x default/no default; %d "
                 "signatures), plain functions and bound methods (self positional-or-keyword and positional-only; self "
@@ -758,7 +919,8 @@ def run(ctx):
                 "variants (each key, all keys, two keys, unknown key, duplicate key) of %s accepted calls; %d random "
                 "signatures with 6-8 parameters x 8 calls; %d calls through functools.partial; over all signatures with <= 3 "
                 "parameters additionally: (values) every call shape with arguments and defaults drawn from {None, 0, "
-                "False, '', 7, ()} (all-None, rotation, seeded random); (shared-code) four function objects on ONE code "
+                "False, '', 7, (), objects with non-standard ==/!= (always equal, never equal, raising, no truth value), "
+                "Parameter.empty} (all-None, rotation, seeded random); (shared-code) four function objects on ONE code "
                 "object with different __defaults__/__kwdefaults__, plain and as methods, every call shape on f0,f1,f2,"
                 "f3,f0,... alternately in one interpreter; (wraps) triples of different functions behind one functools.wraps "
                 "decorator called alternately. distinct_nontrivial = "
@@ -768,6 +930,8 @@ def run(ctx):
         "samples": samples[:3],
         "traces_validated_against_impl": tot["cases"],
         "phase_seconds": phase,
+        "source_tie_filter_args_loops": source_tie,
+        "func_name_model": name_cov,
         "exhaustive_cases": n_exh,
         "stream_cases_values_sharedcode_wraps": n_streams,
         "corpus_and_witness_cases": n_corpus,
@@ -795,6 +959,17 @@ def run(ctx):
 def replay(ctx, path):
     obj = json.load(open(path))
     rep = obj.get("replay", obj)
+    if rep.get("name_case"):
+        r = run_name_impl([rep["name_case"]])[0]
+        bad = name_oracle(rep["name_case"], r)
+        print("replay:", json.dumps(rep["name_case"]), "->", json.dumps(r), "=>", bad or "property holds")
+        return 1 if bad else 0
+    if rep.get("name_pair"):
+        r1, r2 = run_name_impl(rep["name_pair"])
+        same = r1.get("func_id") == r2.get("func_id")
+        print("replay:", json.dumps(rep["name_pair"]), "->", r1.get("func_id"), r2.get("func_id"),
+              "=> the two callables %s a func_id" % ("SHARE" if same else "do not share"))
+        return 1 if same else 0
     c = rep.get("case") or rep.get("input")
     if not c or "sig" not in c:
         print("replay file names a broken proof/correspondence, nothing to execute:", rep.get("kind"))
